@@ -60,6 +60,15 @@ def main():
                 idx = sorted(idx[:budget])
                 plan.append(dict(fam=fam, impl=impl, is_set=(len(plan) % 2 == 1), leaf=lf, internal=it, nkeys=nk,
                                  dump=fn, indices=idx, per_state=per, seed=ck.seed + len(plan)))
+    # object keys with None as the smallest stored key (the 'ext' embedding, no shift): the same corruptions
+    for impl in ('c', 'py'):
+        for (fn, payloads, nk, lf, it, per) in dumps[:2]:
+            nstates = len(graph.Graph(payloads).states())
+            idx = list(range(nstates))
+            ck.rng.shuffle(idx)
+            for is_set in (True, False):
+                plan.append(dict(fam='OO', impl=impl, is_set=is_set, leaf=lf, internal=it, nkeys=nk, emb='ext', shift=0,
+                                 dump=fn, indices=sorted(idx[:(20 if quick else 400)]), per_state=per, seed=ck.seed + len(plan)))
     results = jobs.run_jobs('harness.workers.check_worker', plan)
     uniq, owner = {}, {}
     labels = {}
